@@ -62,6 +62,9 @@ func Generate(r *rand.Rand, profile string) *Scenario {
 	if profile == "frag" {
 		return generateFrag(r)
 	}
+	if profile == "foreign" {
+		return generateForeign(r)
+	}
 	if profile == "flat" {
 		return generateFlat(r)
 	}
@@ -2277,6 +2280,83 @@ func generateRefuge(r *rand.Rand) *Scenario {
 	sizes := []int{gA, v, 1}
 	for i := 0; i < n; i++ {
 		sc.Pods = append(sc.Pods, Pod{Name: fmt.Sprintf("j%d-p%d", k, i+1), Job: k, Cpu: 500, Mem: 500, Gpu: sizes[i], Phase: "P"})
+	}
+	sc.Normalize()
+	return sc
+}
+
+// generateForeign: workloads with a pod on a node the scheduler does not own (the node lost its node-pool label after
+// the pod was placed, or belongs to another pool): the pod group and its pods are in the session, the node is not. A
+// gang sitting at its minimum with one pod on such a node can only be taken as a whole - and the foreign pod cannot be
+// evicted by this scheduler. Victims of an over-quota queue / of lower priority fill the owned nodes, claimants wait.
+func generateForeign(r *rand.Rand) *Scenario {
+	pick := func(vs ...int) int { return vs[r.Intn(len(vs))] }
+	sc := &Scenario{Class: "foreign"}
+	sc.Cfg = Cfg{Placement: []string{"binpack", "spread"}[r.Intn(2)], Consolidation: pick(0, 1), Signatures: pick(0, 1),
+		ConsReclaim: pick(0, 1), SatMult: 1000, Cycles: pick(1, 2), Env: "closed", FullHier: 1,
+		PoolKey: "kai.scheduler/node-pool", PoolVal: "a"}
+	nn := pick(1, 2)
+	g := pick(2, 3, 4)
+	for i := 0; i < nn; i++ {
+		sc.Nodes = append(sc.Nodes, Node{Name: fmt.Sprintf("n%d", i+1), Cpu: 32000, Mem: 64000, Pods: 110, Gpus: g, GpuMem: 40000, Ready: 1,
+			Labels: map[string]string{"kai.scheduler/node-pool": "a"}})
+	}
+	foreign := Node{Name: fmt.Sprintf("n%d", nn+1), Cpu: 32000, Mem: 64000, Pods: 110, Gpus: 4, GpuMem: 40000, Ready: 1, Labels: map[string]string{}}
+	if r.Intn(2) == 0 {
+		foreign.Labels["kai.scheduler/node-pool"] = "b"
+	}
+	sc.Nodes = append(sc.Nodes, foreign)
+	fn := nn + 1
+	sc.Queues = []Queue{{Name: "d1", Parent: 0, Prio: 100, GQ: -1, GL: -1, GW: 1, CQ: -1, CL: -1, MQ: -1, ML: -1},
+		{Name: "qa", Parent: 1, Prio: 100, GQ: pick(0, 1000), GL: -1, GW: 1, CQ: -1, CL: -1, MQ: -1, ML: -1},
+		{Name: "qb", Parent: 1, Prio: 100, GQ: pick(2000, 3000, 4000), GL: -1, GW: 1, CQ: -1, CL: -1, MQ: -1, ML: -1}}
+	free := make([]int, nn)
+	for i := range free {
+		free[i] = g
+	}
+	k := 0
+	// the gang with a foreign pod: 2-3 pods, at its minimum or elastic above it
+	size := pick(2, 2, 3)
+	min := size
+	if r.Intn(3) == 0 {
+		min = size - 1
+	}
+	k++
+	sc.Jobs = append(sc.Jobs, Job{Name: fmt.Sprintf("j%d", k), Queue: 2, Prio: 50, Preempt: 1, Min: min, Age: pick(600, 7200, 9000), LastStart: 36000})
+	sc.Pods = append(sc.Pods, Pod{Name: fmt.Sprintf("j%d-p1", k), Job: k, Cpu: 500, Mem: 500, Gpu: 1, Phase: "R", Node: fn})
+	for i := 1; i < size; i++ {
+		ni := r.Intn(nn)
+		if free[ni] == 0 {
+			ni = (ni + 1) % nn
+		}
+		if free[ni] == 0 {
+			break
+		}
+		sc.Pods = append(sc.Pods, Pod{Name: fmt.Sprintf("j%d-p%d", k, i+1), Job: k, Cpu: 500, Mem: 500, Gpu: 1, Phase: "R", Node: ni + 1})
+		free[ni]--
+	}
+	// single-pod victims fill the owned nodes
+	for ni := 0; ni < nn; ni++ {
+		for free[ni] > 0 {
+			sz := pick(1, 1, 2)
+			if sz > free[ni] {
+				sz = free[ni]
+			}
+			k++
+			sc.Jobs = append(sc.Jobs, Job{Name: fmt.Sprintf("j%d", k), Queue: 2, Prio: 50, Preempt: pick(1, 1, 1, 0), Min: 1, Age: 1200 + 60*r.Intn(60), LastStart: 36000})
+			sc.Pods = append(sc.Pods, Pod{Name: fmt.Sprintf("j%d-p1", k), Job: k, Cpu: 500, Mem: 500, Gpu: sz, Phase: "R", Node: ni + 1})
+			free[ni] -= sz
+		}
+	}
+	// claimants: of the deserving queue (reclaim) or of higher priority in the victims' queue (preempt)
+	for i := 0; i < pick(1, 1, 2); i++ {
+		k++
+		q, prio := 3, 50
+		if r.Intn(3) == 0 {
+			q, prio = 2, 75
+		}
+		sc.Jobs = append(sc.Jobs, Job{Name: fmt.Sprintf("j%d", k), Queue: q, Prio: prio, Preempt: 1, Min: 1, Age: 300 + 60*i, LastStart: -1})
+		sc.Pods = append(sc.Pods, Pod{Name: fmt.Sprintf("j%d-p1", k), Job: k, Cpu: 500, Mem: 500, Gpu: pick(1, 1, 2), Phase: "P"})
 	}
 	sc.Normalize()
 	return sc
